@@ -112,8 +112,10 @@ def run(data):
         out.append(r)
     tables = {}
     if data.get("tables"):
-        tables["usym"] = [[s, C.unit(u)] for s, u in Unit._by_symbol.items()]
-        tables["uname"] = [[n, C.unit(u)] for n, u in Unit._by_name.items()]
+        tables["usym"] = [[s, C.unit(u)] for s, u in Unit._by_symbol.items() if isinstance(u, Unit)]
+        tables["uname"] = [[n, C.unit(u)] for n, u in Unit._by_name.items() if isinstance(u, Unit)]
+        # names / symbols bound to something that is not a Unit: the parser will hand them to unit arithmetic
+        tables["non_units"] = [n for n, u in list(Unit._by_name.items()) + list(Unit._by_symbol.items()) if not isinstance(u, Unit)]
         tables["psym"] = [[s, C.prefix(p)] for s, p in Prefix._by_symbol.items()]
         tables["unit_first_symbol"] = [[C.unit(u), u.symbol] for u in Unit._known.values() if u.symbol]
         tables["atom_first_symbol"] = [[C.base_id(u), u.symbol] for u in C.base_units if u.symbol]
